@@ -222,6 +222,24 @@ def check_case(case):
                                     f"{solver}: alpha = alpha_max*(1+{eps}): after the full budget (stop_crit={out.stop:.2e} > tol) the fit predicts "
                                     f"{eta.ravel()[:3].tolist()} but the loss-minimising intercept-only model predicts {eta0.ravel()[:3].tolist()}")],
                               True, classes + ["not-converged"])
+        # Differential form (no absolute budget): the SAME algorithm on the other storage format of the same matrix
+        # solves the problem within the same budget and returns the null solution, while this run ends elsewhere.
+        if case["side"] == "above" and out.w is not None and np.all(np.isfinite(np.asarray(out.w, float))) and kind == "scalar":
+            other = "csc" if case["storage"] == "dense" else "dense"
+            o2 = P.run(dict(pc, storage=other))
+            if o2.exc is None and o2.w is not None and o2.stop <= tol:
+                W, W2 = np.asarray(out.w, float), np.asarray(o2.w, float)
+                pen_idx_ = np.setdiff1d(np.arange(p), unpen)
+                b_ = W[p] if fi else 0.
+                dev = float(np.max(np.abs(X @ W[:p] + b_ - eta0)))
+                far = (len(pen_idx_) and np.max(np.abs(W[pen_idx_])) > 1e-3 * (1 + np.max(np.abs(W)))) or dev > 1e-2 * (1 + float(np.max(np.abs(eta0))))
+                null2 = not len(pen_idx_) or np.max(np.abs(W2[pen_idx_])) <= 1e3 * tol
+                if far and null2:
+                    return result([Viol(dict(sig, kind="null-model-not-reached", sibling=other),
+                                        f"{solver} [{case['storage']}]: alpha = alpha_max*(1+{eps}): the run ends with stop_crit={out.stop:.2e} > tol, penalised "
+                                        f"coefficients {W[pen_idx_].tolist()[:4]} and predictions off the null model by {dev:.2e}, while the same solver on "
+                                        f"{other} storage converges to the null solution within the same budget")],
+                                  True, classes + ["not-converged"])
         return result([], False, classes + ["not-converged(inconclusive)"])
     W = np.asarray(out.w, float)
     coef = W[:p]
